@@ -12,6 +12,18 @@ TEXT = {
             "calls is compared with an independent reference built from the documented definition. Held on the "
             "executions observed; says nothing about inputs not generated.",
             "Trusts scipy linprog/HiGHS for the transport LP, IEEE doubles, tolerances 1e-9 (1e-7 LP)."),
+    "C02": ("contract on every evaluate(return_grad=True): same score, shape, zero gradient on clipped entries, and "
+            "Richardson central-difference derivative of the original evaluate through the soft-max parameterisation and "
+            "along simplex tangent directions; kinks detected and skipped",
+            "Runtime monitoring with a numeric-derivative oracle at every gradient the real code returns during direct "
+            "calls and inside real fits. Decides mismatches above ~1e-6 relative at smooth, well-conditioned points.",
+            "Finite differences in IEEE doubles; coordinates failing the smoothness / conditioning tests are skipped "
+            "(counted in the evidence), so a defect confined to kinks or to gradients below ~1e-7 is invisible."),
+    "C13": ("metamorphic monitor on evaluate calls: re-invocation on permuted samples, permuted clusters, appended "
+            "empty cluster; bounds (>=0, <=1, constant rows, MI=log K, finiteness on the closed simplex)",
+            "Runtime monitoring: each observed call is re-executed on transformed copies and the relation is asserted; "
+            "gradient equivariance is arbitrated by a numeric derivative where decidable.",
+            "Tolerances 1e-9 (sqrt-aware for MMD, K*epsilon for clipped one-hot rows); gradient equivariance undecided at kinks."),
 }
 
 TECH_DEFAULT = "runtime monitoring: contracts/invariants at hooked call sites over generated workloads"
